@@ -39,7 +39,7 @@ Mutations(inv) ==
   \cup UNION {{[k |-> "rename_column", db |-> t.db, t |-> t.name, c |-> cn, i |-> "", n |-> f] : cn \in ColNames(t), f \in {"AA_verif_new", "zz_verif_new"}} : t \in inv.tables}
   \cup {[k |-> "add_column", db |-> t.db, t |-> t.name, c |-> Fresh, i |-> "", n |-> Fresh] : t \in inv.tables}
   \cup UNION {{[k |-> kind, db |-> x.db, t |-> x.table, c |-> "", i |-> x.name, n |-> Fresh] :
-                  kind \in {"drop_index", "change_index_unique", "change_index_columns"}} : x \in Created(inv)}
+                  kind \in {"drop_index", "change_index_unique", "change_index_columns", "change_index_expr_tail", "change_index_expr_head"}} : x \in Created(inv)}
   \cup {[k |-> "rename_index", db |-> x.db, t |-> x.table, c |-> "", i |-> x.name, n |-> f] : x \in Created(inv), f \in FreshNames}
   \cup {[k |-> "add_index", db |-> t.db, t |-> t.name, c |-> "", i |-> f, n |-> f] : t \in inv.tables, f \in {"AA_verif_new", "zz_verif_new"}}
 
@@ -72,6 +72,9 @@ Apply(m, inv) ==
       [] m.k = "rename_index" -> [inv EXCEPT !.indices = {IF IsIx(x) THEN [x EXCEPT !.name = m.n] ELSE x : x \in inv.indices}]
       [] m.k = "change_index_unique" -> [inv EXCEPT !.indices = {IF IsIx(x) THEN [x EXCEPT !.unique = 1 - x.unique] ELSE x : x \in inv.indices}]
       [] m.k = "change_index_columns" -> [inv EXCEPT !.indices = {IF IsIx(x) THEN [x EXCEPT !.cols = Append(x.cols, Fresh)] ELSE x : x \in inv.indices}]
+      \* an index term that is an expression, not a column (index_info reports it with a NULL name), after / before the declared columns
+      [] m.k = "change_index_expr_tail" -> [inv EXCEPT !.indices = {IF IsIx(x) THEN [x EXCEPT !.cols = Append(x.cols, "<expr>")] ELSE x : x \in inv.indices}]
+      [] m.k = "change_index_expr_head" -> [inv EXCEPT !.indices = {IF IsIx(x) THEN [x EXCEPT !.cols = <<"<expr>">> \o x.cols] ELSE x : x \in inv.indices}]
       [] m.k = "add_index" -> [inv EXCEPT !.indices = @ \cup {[db |-> m.db, name |-> m.n, table |-> m.t, unique |-> 0, origin |-> "c", cols |-> <<"x">>]}]
       [] OTHER -> inv
 
